@@ -162,7 +162,8 @@ Feasible(st, e, c) ==
                               /\ [t |-> c.from, n |-> 2] \in st.tasks
                               /\ [o |-> "o2", t |-> c.from, n |-> 2] \in st.results
                               /\ ~\E x \in st.chal : x.o = "o2" /\ x.t = c.from /\ x.n = 2
-    \* RaiseAndResolveChallenge: hash mismatch -> errorsmod.Wrap(nil, ..) = nil: no effect, reported as success
+    \* RaiseAndResolveChallenge: hash mismatch -> ErrHashValue (since fix 4ac3ef5; before it
+    \* errorsmod.Wrap(nil, ..) = nil: no effect but reported as success, lead L21)
     [] e = "challengeWrongHash" -> FALSE
     [] e = "registerOperatorToAVS"     -> c.sender \in st.ops /\ Registered(st, c.from) /\ [o |-> c.sender, a |-> c.from] \notin st.opt
     [] e = "deregisterOperatorFromAVS" -> c.sender \in st.ops /\ Registered(st, c.from) /\ [o |-> c.sender, a |-> c.from] \in st.opt
@@ -237,8 +238,9 @@ AnteAccepts(st, e, c) ==
     [] OTHER -> AnteOK(c)
 
 \* the code, step by step: authorisation check, then the keeper's own preconditions
-\* calls that the code answers with `true` although nothing happened
-SilentOK(st, e, c) == e = "challengeWrongHash" /\ [t |-> c.from, n |-> 2] \in st.tasks
+\* calls that the code answers with `true` although nothing happened: none on the current tree
+\* (challengeWrongHash was one until fix 4ac3ef5)
+SilentOK(st, e, c) == FALSE
 
 Call(st, e, c) ==
   IF c.via = "check" THEN [Unchanged(st) EXCEPT !.ok = AnteAccepts(st, e, c)]
